@@ -102,6 +102,11 @@ def _purity_cases(ctx):
         "pad_region(region array)": W(lambda a: vd.pad_region(a["reg"], 0.5)),
         "inside(region array)": W(lambda a: vd.inside((a["e"], a["n"]), a["reg"])),
         "grid_coordinates(region array)": W(lambda a: vd.grid_coordinates(a["reg"], shape=(2, 3), extra_coords=[1.0, 2.0])),
+        "rolling_window(region array)": W(lambda a: vd.rolling_window((a["e"], a["n"]), size=2.0, shape=(2, 2), region=a["reg"])),
+        "block_split(region array)": W(lambda a: vd.block_split((a["e"], a["n"]), shape=(2, 2), region=a["reg"])),
+        "scatter_points(region array)": W(lambda a: vd.scatter_points(a["reg"], 3, random_state=1)),
+        "BlockReduce(region array).filter": W(lambda a: vd.BlockReduce(_mean(ctx), shape=(1, 2), region=a["reg"]).filter((a["e"], a["n"]), a["d"])),
+        "grid(region array)": W(lambda a: fitted(UFGridder(ident=8), a).grid(region=a["reg"], shape=(2, 2))),
         "variance_to_weights(zero variance)": W(lambda a: vd.variance_to_weights(a["var0"])),
         "convexhull_mask": W(lambda a: vd.convexhull_mask((a["e"], a["n"]), coordinates=(a["qe"], a["qn"]))),
         "distance_mask(grid)": W(lambda a: vd.distance_mask((a["e"], a["n"]), 0.75, grid=vd.make_xarray_grid((a["ge"], a["gn"]), a["g"], "scalars"))),
@@ -377,6 +382,33 @@ def h_not_fitted(ctx):
                 ctx.claim("%s: %s before fitting is an error" % (name, meth), True)
 
 
+def h_cv_leaves_estimator(ctx):
+    "an estimator handed to cross_val_score (serial or delayed) is neither fitted nor re-parameterised by it"
+    from sklearn.model_selection import KFold
+
+    e = np.array([p[0] for p in LAYOUT] + [2.5, 0.9])
+    n = np.array([p[1] for p in LAYOUT] + [1.0, 2.9])
+    d = ctx.reals("d", 6)
+    d2 = ctx.reals("dd", 6)
+    for label, est, data in (("Trend", vd.Trend(1), d), ("VectorSpline2D", vd.VectorSpline2D(mindist=1.0), (d, d2)), ("UFGridder", UFGridder(ident=9), d)):
+        before = {k: v for k, v in est.get_params().items()}
+        for delayed in (False, True):
+            with warnings.catch_warnings():
+                warnings.simplefilter("ignore")
+                scores = vd.cross_val_score(est, (e, n), data, cv=KFold(n_splits=2), scoring="neg_mean_squared_error", delayed=delayed)
+                if delayed:
+                    import dask
+
+                    dask.compute(*scores, scheduler="synchronous")
+            after = est.get_params()
+            ctx.claim("%s: parameters unchanged by cross_val_score (delayed=%s)" % (label, delayed), set(after) == set(before) and all(after[k] is before[k] or (not hasattr(after[k], "__len__") and after[k] == before[k]) for k in before))
+            try:
+                est.predict((e, n))
+                ctx.claim("%s: still unfitted after cross_val_score (delayed=%s): predict is an error" % (label, delayed), False)
+            except NotFittedError:
+                ctx.claim("%s: still unfitted after cross_val_score (delayed=%s): predict is an error" % (label, delayed), True)
+
+
 # --------------------------------------------------------------------------- rejection with symbolic shapes
 class ShapeOnly:
     "an array-like of which only the shape matters"
@@ -560,7 +592,7 @@ def _cfg_purity(tier, seed):
 
 
 HARNESSES = [
-    Harness("purity_and_repeatability", h_purity, _cfg_purity, bounds="45 public callables / estimator method sequences on a concrete 4-point layout with symbolic data, weights, grids and Jacobians; every argument array read-only; each call repeated", stubs=["cKDTree / sklearn / scipy interpolators / scorer / RNG -> contract stubs", "block_split (inside block reductions) -> C08 contract"], extra_globals=_globals, engine={"oneshot": True, "keyed_sqrt": True}, outside="functions not listed in functions_encoded", timeout_s=900),
+    Harness("purity_and_repeatability", h_purity, _cfg_purity, bounds="50 public callables / estimator method sequences on a concrete 4-point layout with symbolic data, weights, grids and Jacobians; every argument array read-only; each call repeated", stubs=["cKDTree / sklearn / scipy interpolators / scorer / RNG -> contract stubs", "block_split (inside block reductions) -> C08 contract"], extra_globals=_globals, engine={"oneshot": True, "keyed_sqrt": True}, outside="functions not listed in functions_encoded", timeout_s=900),
     Harness("history_freedom", h_history, lambda tier, seed: [{"kind": k} for k in ("trend", "spline", "vector", "vector_fc", "kneighbors", "linear", "cubic")], bounds="fit on dataset A then on dataset B (different concrete 4-point layouts, symbolic data) versus a fresh estimator fitted on B; clone and get_params round trips", stubs=["sklearn / cKDTree / scipy interpolators -> contract stubs"], extra_globals=_globals, engine={"oneshot": True}),
     Harness("no_aliasing", h_no_aliasing, lambda tier, seed: [{"kind": k, "shape": s} for k, s in (("trend", (4,)), ("spline", (4,)), ("spline", (2, 2)), ("vector", (4,)), ("vector_fc", (2, 2)), ("kneighbors", (4,)), ("kneighbors", (2, 2)), ("linear", (4,)))], bounds="every gridder fitted on a concrete 4-point layout (1-D and 2x2 contiguous arrays) with symbolic data and weights; all ndarray attributes (also inside tuples) of the fitted estimator", stubs=["sklearn / cKDTree / scipy interpolators -> contract stubs"], extra_globals=_globals, engine={"oneshot": True}),
     Harness("not_fitted", h_not_fitted, {"quick": [{}]}, bounds="9 gridders, symbolic query offset; predict, grid, scatter, profile, score", extra_globals=_globals),
@@ -571,6 +603,7 @@ HARNESSES = [
         bounds="coordinates, data (1-2 components) and weights (0-2) of rank 1-2 with every dimension a symbolic integer in 1..3",
         stubs=["arrays reduced to their (symbolic) shape"],
     ),
+    Harness("cross_val_leaves_estimator", h_cv_leaves_estimator, {"quick": [{}]}, bounds="Trend, VectorSpline2D and the recording gridder through cross_val_score (2 folds, serial and delayed) on 6 concrete points with symbolic data", stubs=["sklearn / scorer -> contract stubs"], extra_globals=_globals, engine={"oneshot": True}),
     Harness("reject_entry_points", h_reject_entry_points, {"quick": [{}]}, bounds="39 public entry points (estimator fit/score/filter, splitters, cross-validation, coordinate generators, region consumers), each given one inconsistency: a data/weight/coordinate array one element longer, both or neither of shape/size and spacing, a region with W > E, S > N or the wrong number of entries; symbolic data values", extra_globals=_globals),
     Harness("reject_misc", h_reject_misc, lambda tier, seed: [{"rank": 1}, {"rank": 2}], bounds="three coordinate arrays of symbolic shapes (rank 1-2, dims 1..3); component-count, shape/spacing and region errors with symbolic data and regions", extra_globals=_globals),
 ]
